@@ -6,6 +6,7 @@ pub mod evidence;
 pub mod known;
 pub mod panics;
 pub mod rng;
+pub mod selftest;
 pub mod wake;
 
 pub use engine::{Ctx, Engine, Outcome, Report, Stats, Tier, Violation, run_part};
